@@ -157,13 +157,13 @@ theorem c09_untrusted_noninterference (parse : UriParse) (proxies : List String)
 
 /-- the hypotheses are met by a request carrying the whole family, in mixed spellings and repeated -/
 example :
-    let r : Req := ⟨"GET", "svc.local", "/public/x", "a=1", false, "203.0.113.9:40000",
+    let r : Req := ⟨"GET", "svc.local", "", "/public/x", "a=1", false, "203.0.113.9:40000",
       [("x-forwarded-method", "DELETE"), ("X-FORWARDED-URI", "/admin/x"), ("X-Forwarded-Proto", "https"),
        ("x-Forwarded-Host", "trusted.example.com"), ("Forwarded", "for=10.0.0.1"), ("x-forwarded-for", "10.0.0.1"),
        ("X-Forwarded-For", "10.0.0.2"), ("X-Forwarded-Path", "/admin"), ("Accept", "*/*")]⟩
     ¬ Listed ["10.0.0.0/8", "not-an-ip"] r.remoteAddr ∧
       nonFamily r.wire = nonFamily [("Accept", "*/*")] ∧
-      (serve (fun _ => some ("/admin/x", "")) ["10.0.0.0/8", "not-an-ip"] r).view =
+      (serve (fun _ => some ⟨"", "/admin/x", ""⟩) ["10.0.0.0/8", "not-an-ip"] r).view =
         ⟨"GET", "http", "svc.local", "/public/x", "a=1", ["203.0.113.9"]⟩ := by
   decide
 
@@ -171,8 +171,9 @@ example :
 
 /-- **Trusted ⇒ each present header overrides exactly its component, absent ones fall back.** For a listed peer the
 view is `overriddenView`: the method is the first `X-Forwarded-Method` line if non-empty, else the request's; likewise
-scheme / `X-Forwarded-Proto`, host / `X-Forwarded-Host`, path and query / what `url.Parse` makes of `X-Forwarded-Uri`
-(each falling back separately when empty or not parsable); the client addresses are those announced by `Forwarded`
+scheme / `X-Forwarded-Proto`, host / `X-Forwarded-Host`, path and query / those of `X-Forwarded-Uri` **as received**
+(path: `escapedPath`, query: `RawQuery` of what `url.Parse` accepts; each falling back separately when empty or not
+parsable); the client addresses are those announced by `Forwarded`
 (else `X-Forwarded-For`) followed by the real peer.  Lines are found under any spelling; the first line wins. -/
 theorem c09_trusted_override (parse : UriParse) (proxies : List String) (r : Req)
     (ht : Listed proxies r.remoteAddr) :
@@ -198,17 +199,28 @@ theorem c09_trusted_header_touches_only_its_component (parse : UriParse) (proxie
     rw [← firstCI_filter_other wire' K K' hne, ← firstCI_filter_other r.wire K K' hne, hsame]
   have e1 := c09_trusted_override parse proxies r ht
   have e2 := c09_trusted_override parse proxies { r with wire := wire' } ht
-  simp only [e1, e2, overriddenView, specUri, specAnnounced, peerIP, proto]
+  simp only [e1, e2, overriddenView, specUri, specAnnounced, peerIP, proto, Req.path]
   refine ⟨fun h => by rw [key _ h], fun h => by rw [key _ h], fun h => by rw [key _ h],
     fun h => by rw [key _ h]; exact ⟨rfl, rfl⟩, fun h1 h2 => by rw [key _ h1, key _ h2]⟩
 
 example :
-    let r : Req := ⟨"GET", "svc.local", "/public/x", "a=1", true, "10.1.2.3:40000",
+    let r : Req := ⟨"GET", "svc.local", "", "/public/x", "a=1", true, "10.1.2.3:40000",
       [("x-forwarded-method", "DELETE"), ("X-Forwarded-Method", "POST"), ("X-FORWARDED-URI", "/admin/x?z"),
        ("Forwarded", "for=1.1.1.1;proto=http, by=x;for=2.2.2.2"), ("x-forwarded-for", "9.9.9.9")]⟩
     Listed ["10.0.0.0/8"] r.remoteAddr ∧
-      (serve (fun v => if v = "/admin/x?z" then some ("/admin/x", "z=") else none) ["10.0.0.0/8"] r).view =
-        ⟨"DELETE", "https", "svc.local", "/admin/x", "z=", ["1.1.1.1", "2.2.2.2", "10.1.2.3"]⟩ := by
+      (serve (fun v => if v = "/admin/x?z" then some ⟨"", "/admin/x", "z"⟩ else none) ["10.0.0.0/8"] r).view =
+        ⟨"DELETE", "https", "svc.local", "/admin/x", "z", ["1.1.1.1", "2.2.2.2", "10.1.2.3"]⟩ := by
+  decide
+
+/-- the path is shown as received — for the request line and for a believed `X-Forwarded-Uri` alike: escapes of the
+client are kept (`%2F`, `%41`), only octets that may not stand in a path are encoded; the query of the header is taken
+as received (`a=b=c;d`, no re-encoding, nothing dropped) -/
+example :
+    let r : Req := ⟨"GET", "svc.local", "/p%2Fq/%41 b", "/p%2Fq/%41%20b", "k=v", false, "10.1.2.3:40000",
+      [("X-Forwarded-Uri", "/a%2fb/<c>?a=b=c;d")]⟩
+    (serve (fun _ => none) [] r).view.rawPath = "/p%2Fq/%41%20b" ∧
+      (serve (fun _ => some ⟨"/a%2fb/<c>", "/a%2Fb/%3Cc%3E", "a=b=c;d"⟩) ["10.1.2.3"] r).view =
+        ⟨"GET", "http", "svc.local", "/a%2fb/%3Cc%3E", "a=b=c;d", ["10.1.2.3"]⟩ := by
   decide
 
 /-! ## the upstream of the proxy -/
@@ -245,7 +257,7 @@ theorem c09_trusted_upstream_extended (parse : UriParse) (proxies : List String)
   exact upstreamFwd_canonHeaders r
 
 example :
-    let r : Req := ⟨"GET", "svc.local", "/x", "", false, "10.1.2.3:40000",
+    let r : Req := ⟨"GET", "svc.local", "", "/x", "", false, "10.1.2.3:40000",
       [("x-forwarded-for", "9.9.9.9, 8.8.8.8"), ("Accept", "*/*"), ("X-FORWARDED-FOR", "1.1.1.1"),
        ("Forwarded", "for=7.7.7.7")]⟩
     Listed ["10.1.2.3"] r.remoteAddr ∧
